@@ -43,6 +43,17 @@ OBS = Box(-jnp.ones((2,)), jnp.ones((2,)))
 PKG = "/repo/src/lerax"
 
 
+def _dotted(node):
+    parts = []
+    while isinstance(node, ast.Attribute):
+        parts.append(node.attr)
+        node = node.value
+    if isinstance(node, ast.Name):
+        parts.append(node.id)
+        return ".".join(reversed(parts))
+    return None
+
+
 def unit_frame_ast(S):
     """No function in lerax writes module-level state (global statements, or mutation of module-level mutable containers)."""
     fn = "lerax/** (AST frame check)"
@@ -98,6 +109,13 @@ def unit_frame_ast(S):
                 for n in ast.walk(fnode):
                     if isinstance(n, ast.Global):
                         offenders.append(f"{path}:{n.lineno} global {','.join(n.names)}")
+                    # process-wide JAX configuration (jax.config.update(...), jax.config.<flag> = ...): numerics of every later computation in the process change
+                    if isinstance(n, ast.Call) and isinstance(n.func, ast.Attribute) and n.func.attr == "update" and _dotted(n.func.value) in ("jax.config", "config", "jax._src.config.config"):
+                        offenders.append(f"{path}:{n.lineno} changes the process-wide JAX configuration ({ast.unparse(n)[:80]})")
+                    if isinstance(n, (ast.Assign, ast.AugAssign)):
+                        for t in (n.targets if isinstance(n, ast.Assign) else [n.target]):
+                            if isinstance(t, ast.Attribute) and _dotted(t.value) == "jax.config":
+                                offenders.append(f"{path}:{n.lineno} assigns the process-wide JAX configuration flag {t.attr}")
                     if isinstance(n, (ast.Assign, ast.AugAssign)):
                         tg = n.targets if isinstance(n, ast.Assign) else [n.target]
                         for t in tg:
